@@ -28,6 +28,7 @@ DECL_INTENTS = ['base_type', 'derived_type', 'dup_dimension', 'scaled_unit',
                 'plain_unit', 'currency_reg', 'currency_new', 'dup_symbol',
                 'empty_symbol', 'wrong_type_scaled']
 OWN_INTENTS = ['bad_currency', 'bad_type', 'scaled_on_noref', 'reuse',
+               'permuted',
                'operate', 'conv_new',
                'conv_update', 'conv_update_bad', 'evict']
 PROBE_DATES = ['2024-02-29', '2024-03-01', '2023-02-28', '1999-12-31']
@@ -74,6 +75,10 @@ def gen(seed, run, tier='quick'):
     while len(ops) < n_ops:
         k = rng.choices(kinds, weights)[0]
         ops.append([k] + [rng.randrange(1 << 16) for _ in range(12)])
+        if k in ('dup_symbol', 'dup_dimension', 'bad_type') and \
+                rng.random() < 0.5:
+            ops.append(['permuted'] + [rng.randrange(1 << 16)
+                                       for _ in range(12)])
     if rng.random() < 0.35:
         # operation-cache scenario (see _scenario_step), somewhere in the
         # second half of the history
@@ -155,6 +160,7 @@ class State:
         self.rej_terms = []     # rejected term definitions (wrong type)
         self.term_pairs = []    # (s1, s2, op) that term definitions use
         self.scn = None         # running operation-cache scenario
+        self.last_rejected_type = None
         self.n_amount = 0
 
     def amount(self):
@@ -197,6 +203,28 @@ def resolve(st: State, op):
                 'quantum': None, 'expect': 'reject', 'bad': 'not_a_term'}
     if kind == 'scn':
         return _scenario_step(st, n, r)
+    if kind == 'permuted':
+        # directly after a rejected type declaration: a valid type over the
+        # same factor types, in another order, with a generated symbol
+        last = st.last_rejected_type
+        if not last:
+            return None
+        refs = []
+        for tn, _e in last:
+            if tn in model.types and model.has_ref(tn) and tn not in refs:
+                refs.append(tn)
+        if len(refs) < 2:
+            return None
+        items = [[refs[1], 1], [refs[0], 1]] + [[t, 1] for t in refs[2:3]]
+        dim = {}
+        for tn, e in items:
+            dim = decl.dim_add(dim, model.types[tn]['dim'], e)
+        if decl.dim_key(dim) in model.dims:
+            return None
+        return {'a': 'derived_type', 'name': f'D{n}', 'items': items,
+                'style': 0, 'ref_sym': None, 'auto_ref': True,
+                'quantum': None, 'expect': 'accept', 'dup_dim': False,
+                'reuse': 'factors'}
     if kind == 'operate':
         # an operation as a step of the history (it is not read-only: it
         # fills the operation memo), its result is compared between worlds
@@ -313,6 +341,8 @@ def resolve(st: State, op):
         pref = c['kind'] or ['none', 'year', 'month', 'day'][r[1] % 4]
         validity = VALIDITIES[pref][r[2] % len(VALIDITIES[pref])]
         nspec = 1 + r[3] % 3
+        if kind == 'conv_update' and r[11] % 10 == 0:
+            nspec = 0           # an update without rate specs
         specs = []
         for j in range(nspec):
             cur = others[(r[4] + j) % len(others)]
@@ -500,6 +530,8 @@ def note_outcome(st: State, act, accepted, info):
         if s and s not in model.units and act.get('bad') not in (
                 'dup_symbol', 'empty_symbol'):
             st.burnt.append((s, act.get('bad', 'rejected')))
+    if a == 'derived_type' and act.get('items'):
+        st.last_rejected_type = act['items']
     if a == 'derived_type' and act.get('bad') == 'dup_symbol' and \
             act.get('items'):
         st.rej_dims.append(act['items'])
